@@ -57,8 +57,11 @@ structure Field where
   validators : Nat
   conv : Bool
   onSet : Hook
-  /-- `default=Factory(f)`; constructions leave the argument out, so the factory runs -/
-  factory : Bool
+  /-- `init=False`: not an `__init__` parameter (the initializer still sets and validates it if it has a default) -/
+  init : Bool
+  /-- no default / a plain default value / `Factory(f[, takes_self=True])` (also what `@x.default` makes);
+      constructions leave the arguments of defaulted parameters out, so the default is used / the factory runs -/
+  dflt : Dflt
   deriving DecidableEq, Repr, FromJson, ToJson, Inhabited
 
 structure Cls where
@@ -111,6 +114,12 @@ structure Case where
   classes : List Cls
   /-- the callback that raises whenever it runs -/
   fault : Option EventId
+  /-- the callback (validator, converter, factory, hook, pre or post init — of any class) whose body performs
+      the nested operations `body` every time it is called during an operation of the history -/
+  probe : Option EventId
+  /-- what the probing callback does before it returns (or raises): construct / assign / validate other
+      instances, read the switch, flip it inside a `disabled()` block of its own … -/
+  body : List Op
   /-- validators enabled when the history starts -/
   start : Bool
   ops : List Op
@@ -146,6 +155,9 @@ structure Step where
 
 structure Obs where
   steps : List Step
+  /-- per operation of the history, per call of the probing callback during it: what the nested operations
+      observed (the callbacks of nested readers have no bodies of their own) -/
+  nested : List (List (List Step))
   deriving DecidableEq, Repr, FromJson, ToJson, Inhabited
 
 /-! ## The switch -/
@@ -247,8 +259,14 @@ def runAssign (cls : Cls) (run : Bool) (fault : Option EventId) (f : Field) : Ru
 
 /-! ## Construction goes through the shared initializer model -/
 
+/-- a construction passes exactly the mandatory parameters -/
+def Field.passed (f : Field) : Bool := f.init && f.dflt == .none
+
+/-- `filtered_attrs` of `_make_init_script`: fields the initializer has a statement for -/
+def Field.participates (f : Field) : Bool := f.init || f.dflt != .none
+
 def toAttr (kw : Bool) (f : Field) : Attr :=
-  { name := f.name, alias := f.name, dflt := if f.factory then .factory false else .none, init := true,
+  { name := f.name, alias := f.name, dflt := f.dflt, init := f.init,
     kwOnly := kw,
     conv := if f.conv then some { takesSelf := false, takesField := false } else none,
     validators := f.validators,
@@ -265,14 +283,14 @@ def clsOnSetOf : Hook → ClsOnSet
   | .chain [.convert] => .convert
   | .chain _ => .hook
 
-/-- the call `C(x=v.x, y=v.y, …)` on the class (fields with a factory left out), with the switch in
+/-- the call `C(x=v.x, y=v.y, …)` on the class (defaulted parameters left out), with the switch in
     position `run`; pre and post init hooks as the class has them -/
 def initCase (cls : Cls) (run : Bool) (fault : Option EventId) : Init.Case :=
   { run := { cfg := { frozen := false, slots := false, cacheHash := false, isExc := false, pre := cls.pre,
                       post := cls.post, clsHook := false, runValidators := run, collectByMro := true },
              attrs := cls.fields.map (toAttr cls.kwOnly),
              own := cls.fields.map (·.name), bases := [], cacheIsSlot := false, fault := fault },
-    call := { pos := [], kw := (cls.fields.filter (!·.factory)).map (fun f => (f.name, "v." ++ f.name)) },
+    call := { pos := [], kw := (cls.fields.filter Field.passed).map (fun f => (f.name, "v." ++ f.name)) },
     isDefine := cls.isDefine,
     clsOnSet := clsOnSetOf cls.clsOnSet }
 
@@ -313,9 +331,25 @@ def runOpsWith (stf : St → Op → St) (c : Case) : St → List Op → List Ste
 
 def St.init (c : Case) : St := { run := c.start, stack := [] }
 
-def model (c : Case) : Obs := { steps := runOpsWith stepSt c (St.init c) c.ops }
+/-- a callback body runs under the switch exactly as it is when the callback is called — no reader touches
+    `_config._run_validators` on the way to its callbacks — with a bracket frame of its own -/
+def runBody (c : Case) (run : Bool) : List Step := runOpsWith stepSt c { run := run, stack := [] } c.body
+
+/-- one body run per call of the probing callback during `op` -/
+def nestedOf (c : Case) (st : St) (op : Op) : List (List Step) :=
+  match c.probe with
+  | none => []
+  | some p => List.replicate ((stepObs c st st op).events.count p) (runBody c st.run)
+
+def runNestedWith (stf : St → Op → St) (c : Case) : St → List Op → List (List (List Step))
+  | _, [] => []
+  | st, op :: ops => nestedOf c st op :: runNestedWith stf c (stf st op) ops
+
+def model (c : Case) : Obs :=
+  { steps := runOpsWith stepSt c (St.init c) c.ops, nested := runNestedWith stepSt c (St.init c) c.ops }
 
 /-- NOT the model of the code: the history under the pre-ee5b683 context manager -/
-def modelOld (c : Case) : Obs := { steps := runOpsWith stepStOld c (St.init c) c.ops }
+def modelOld (c : Case) : Obs :=
+  { steps := runOpsWith stepStOld c (St.init c) c.ops, nested := runNestedWith stepStOld c (St.init c) c.ops }
 
 end Attrs.C20
